@@ -782,13 +782,14 @@ func (t *Tree) Compile(file string, args []string, out io.Writer) (err error) {
 				maxVal := 0
 				var tail *node
 				for i, element := range n.Iterator2() {
-					if properties[i].intersects {
-						ordered.PushBack(element.Copy())
-					} else if i == last && !properties[i].consumes {
+					if i == last && !properties[i].consumes {
 						tail = element.Copy()
+					} else if properties[i].intersects || properties[i].s.Len() == 0 {
+						/* no first character to switch on */
+						ordered.PushBack(element.Copy())
 					} else {
 						class := &node{Type: TypeUnorderedAlternate}
-						for d := range unicode.MaxRune {
+						for d := rune(0); d <= unicode.MaxRune; d++ {
 							if properties[i].s.Has(d) {
 								class.PushBack(&node{Type: TypeCharacter, string: string(d)})
 							}
@@ -797,9 +798,6 @@ func (t *Tree) Compile(file string, args []string, out io.Writer) (err error) {
 						sequence := &node{Type: TypeSequence}
 						predicate := &node{Type: TypePeekFor}
 						length := properties[i].s.Len()
-						if length == 0 {
-							class.PushBack(&node{Type: TypeNil, string: "<nil>"})
-						}
 						predicate.PushBack(class)
 						sequence.PushBack(predicate)
 						sequence.PushBack(element.Copy())
@@ -824,7 +822,9 @@ func (t *Tree) Compile(file string, args []string, out io.Writer) (err error) {
 					for element := range ordered.Iterator() {
 						n.PushBack(element.Copy())
 					}
-					n.PushBack(unordered)
+					if unordered.Front() != nil {
+						n.PushBack(unordered)
+					}
 					if tail != nil {
 						n.PushBack(tail)
 					}
